@@ -59,15 +59,29 @@ def bertSync : List Nat := [0xDF, 0x55]
 def eotMarker : List Nat := [0x55, 0x5D]
 def preamble : List Nat := List.replicate 48 0x77
 
-def lsfFrame (lsf : List Nat) : List Nat :=
-  lsfSync ++ bytesOfBits (rnd (ileave (punct p1 (convEncode (bitsOfBytes lsf)) 368)))
+/-- the 368 channel bits of a link setup frame (after the sync word) -/
+def lsfFrameBits (lsf : List Nat) : List Bool := rnd (ileave (punct p1 (convEncode (bitsOfBytes lsf)) 368))
+
+/-- the 368 channel bits of a stream frame: LICH fragment `lichN` of `lsf` (96 bits) and the coded 18 data bytes (272 bits) -/
+def streamFrameBits (lsf : List Nat) (lichN : Nat) (data : List Nat) : List Bool :=
+  rnd (ileave (lichBits lsf lichN ++ punct p2 (convEncode (bitsOfBytes data)) 272))
+
+/-- the 368 channel bits of a packet frame carrying 206 bits (25 bytes, EOF flag, 5-bit counter) -/
+def packetFrameBits (bits : List Bool) : List Bool := rnd (ileave (punct p3 (convEncode bits) 368))
+
+/-- the 368 channel bits of a BERT frame carrying 197 bits -/
+def bertFrameBits (bits : List Bool) : List Bool := rnd (ileave (punct p2 (convEncode bits) 368))
+
+def lsfFrame (lsf : List Nat) : List Nat := lsfSync ++ bytesOfBits (lsfFrameBits lsf)
 
 def streamFrame (lsf : List Nat) (lichN fn : Nat) (payload : List Nat) : List Nat :=
-  let data := [fn / 256 % 256, fn % 256] ++ payload
-  streamSync ++ bytesOfBits (rnd (ileave (lichBits lsf lichN ++ punct p2 (convEncode (bitsOfBytes data)) 272)))
+  streamSync ++ bytesOfBits (streamFrameBits lsf lichN ([fn / 256 % 256, fn % 256] ++ payload))
 
-def bertFrame (bits : List Bool) : List Nat :=
-  bertSync ++ bytesOfBits (rnd (ileave (punct p2 (convEncode bits) 368)))
+def packetSync : List Nat := [0x75, 0xFF]
+
+def packetFrame (bits : List Bool) : List Nat := packetSync ++ bytesOfBits (packetFrameBits bits)
+
+def bertFrame (bits : List Bool) : List Nat := bertSync ++ bytesOfBits (bertFrameBits bits)
 
 /-- the frames of a stream: payload k gets frame number k (mod 0x8000) and LICH fragment k mod 6; the last one carries
     the end-of-stream bit -/
